@@ -16,10 +16,19 @@
        1000 * (row + 1) + 3  returned actions differ
                           + 4  a per-step probability exp(logprob) differs by more than the tolerance
                           + 5  exp(summed log-likelihood) differs (relative tolerance)
-                          + 6  reward differs (select_best picked another rollout)                                  *)
+                          + 6  reward differs (select_best picked another rollout)
+                          + 7  outdict["entropy"] differs from the model's value (Decoding/DecodeLoopEntropy.v at (Qc, lnQ))
+                  7 the model says DecodingStrategy.__init__ raises (multistart and multisample ...), the code returned
+                 10 the code raised although the model returns
+
+   The configuration travels RAW (multistart, multisample, num_starts, num_samples as handed to the policy, plus
+   env.get_num_starts(td)); the model resolves it with C12's strategy_init / hook_num_starts (Decoding/Starts.v) into the
+   (multistart, num_starts) the hooks work with.  fuel = max_steps + 1 when the pass was given max_steps; otherwise any
+   fuel >= the episode length (DecodeLoopFuel.forward_fuel_independent; the code's default is 1_000_001).             *)
 From Coq Require Import List ZArith QArith Qcanon Bool Arith.
 From RL4CO Require Import Base.OField Base.OFieldQc Base.EnvSig Decoding.PLTensor Decoding.ProcessLogits Decoding.PLInst
-                          Decoding.DecodeLoop Decoding.DecodeLoopInst.
+                          Decoding.DecodeLoop Decoding.DecodeLoopInst Decoding.Starts Decoding.Entropy Decoding.EntropyInst
+                          Decoding.DecodeLoopEntropy.
 Import ListNotations.
 
 Fixpoint eqb_ln (a b : list nat) : bool :=
@@ -60,12 +69,27 @@ Definition tab_flags (i : tinst) (s : list nat) : option (list bool) :=
 
 Record c11_case := mk11 {
   k_mode : nat;                      (* 0 greedy, 1 sampling, 2 evaluate *)
-  k_sa : bool; k_ms : bool; k_S : nat; k_sb : bool; k_fuel : nat;
+  k_sa : bool;
+  k_rms : bool; k_rmp : bool; k_rns : option Z; k_rnsamp : option Z;   (* multistart, multisample, num_starts, num_samples: RAW *)
+  k_dflt : Z;                        (* env.get_num_starts(td) *)
+  k_sb : bool; k_fuel : nat;
   k_tm : Z; k_td : Z; k_topk : nat; k_topp : Q;
   k_insts : list tinst; k_starts : list nat; k_ors : list (list nat);
   k_obs : list (list nat * list Q * Q * Z);   (* returned row: actions, exp(logprob) per step, exp(sum), reward *)
-  k_tol : Q; k_rtol : Q
+  k_tol : Q; k_rtol : Q;
+  k_ent : list Q;                    (* outdict["entropy"] per returned row; [] = not recorded *)
+  k_etol : Q;
+  k_raised : bool                    (* the pass raised before returning (only recorded for DecodingStrategy.__init__'s asserts) *)
 }.
+
+(* DecodingStrategy.__init__ + the first block of pre_decoder_hook: the (multistart, num_starts) the hooks work with *)
+Definition case_eff (c : c11_case) : option (bool * nat) :=
+  match strategy_init (k_rms c) (k_rmp c) (k_rns c) (k_rnsamp c) with
+  | None => None
+  | Some (ms', mp', ns') => Some (ms', Z.to_nat (hook_num_starts ms' mp' ns' (k_dflt c)))
+  end.
+Definition k_ms (c : c11_case) : bool := match case_eff c with Some (ms, _) => ms | None => false end.
+Definition k_S (c : c11_case) : nat := match case_eff c with Some (_, n) => n | None => O end.
 
 Definition mode_of (n : nat) : mode := match n with O => Greedy | S O => Sampling | _ => Evaluate end.
 Definition toQc (q : Q) : Qc := Q2Qc q.
@@ -106,13 +130,30 @@ Fixpoint check_rows (tol rtol : Qc) (k : Z) (outs : list (brow QcF TabEnv unit))
   | _, _ => 2%Z
   end.
 
+Definition hent := out_entropyK QcF TabEnv unit lnQ.
+Fixpoint check_ents (tol : Qc) (k : Z) (outs : list (brow QcF TabEnv unit)) (ents : list Q) : Z :=
+  match outs, ents with
+  | _, [] => 0%Z
+  | o :: outs', x :: ents' =>
+      if Qcleb (Qcabs (toQc x - hent o)%Qc) tol then check_ents tol (k + 1)%Z outs' ents' else (1000 * k + 7)%Z
+  | [], _ :: _ => 2%Z
+  end.
+
 Definition check_c11 (c : c11_case) : Z :=
-  match case_forward c with
-  | None => 1%Z
-  | Some outs =>
-      if negb (Nat.eqb (length outs) (length (k_obs c))) then 2%Z
-      else if negb (case_ok c) then 8%Z
-      else check_rows (toQc (k_tol c)) (toQc (k_rtol c)) 1%Z outs (k_obs c)
+  match case_eff c with
+  | None => if k_raised c then 0%Z else 7%Z
+  | Some _ =>
+      if k_raised c then 10%Z else
+      match case_forward c with
+      | None => 1%Z
+      | Some outs =>
+          if negb (Nat.eqb (length outs) (length (k_obs c))) then 2%Z
+          else if negb (case_ok c) then 8%Z
+          else match check_rows (toQc (k_tol c)) (toQc (k_rtol c)) 1%Z outs (k_obs c) with
+               | 0%Z => check_ents (toQc (k_etol c)) 1%Z outs (k_ent c)
+               | code => code
+               end
+      end
   end.
 
 (* ------------------------------------------------------------------ self-test: a two-node-plus-depot instance whose
@@ -126,12 +167,33 @@ Definition st_inst : tinst :=
         [([1; 2]%nat, (-7)%Z)] [].
 (* greedy: step 0 logits (.,0,-3) -> action 1 with probability 1 / (1 + 1/8) = 8/9; step 1: single feasible action *)
 Example check_c11_selftest :
-  check_c11 (mk11 0 false false 0 false 50 1 1 0 0 [st_inst] [] [[]]
-                  [([1; 2]%nat, [8 # 9; 1]%Q, (8 # 9)%Q, (-7)%Z)] (1 # 100000) (1 # 100000)) = 0%Z
-  /\ check_c11 (mk11 0 false false 0 false 50 1 1 0 0 [st_inst] [] [[]]
-                  [([1; 2]%nat, [7 # 9; 1]%Q, (8 # 9)%Q, (-7)%Z)] (1 # 100000) (1 # 100000)) = 1004%Z
-  /\ check_c11 (mk11 0 false false 0 false 50 1 1 0 0 [st_inst] [] [[]]
-                  [([1; 2]%nat, [8 # 9; 1]%Q, (1 # 9)%Q, (-7)%Z)] (1 # 100000) (1 # 100000)) = 1005%Z
-  /\ check_c11 (mk11 0 false false 0 false 50 1 1 0 0 [st_inst] [] [[]]
-                  [([2; 1]%nat, [8 # 9; 1]%Q, (8 # 9)%Q, (-7)%Z)] (1 # 100000) (1 # 100000)) = 1003%Z.
+  check_c11 (mk11 0 false false false None None 3 false 50 1 1 0 0 [st_inst] [] [[]]
+                  [([1; 2]%nat, [8 # 9; 1]%Q, (8 # 9)%Q, (-7)%Z)] (1 # 100000) (1 # 100000) [] 0 false) = 0%Z
+  /\ check_c11 (mk11 0 false false false None None 3 false 50 1 1 0 0 [st_inst] [] [[]]
+                  [([1; 2]%nat, [7 # 9; 1]%Q, (8 # 9)%Q, (-7)%Z)] (1 # 100000) (1 # 100000) [] 0 false) = 1004%Z
+  /\ check_c11 (mk11 0 false false false None None 3 false 50 1 1 0 0 [st_inst] [] [[]]
+                  [([1; 2]%nat, [8 # 9; 1]%Q, (1 # 9)%Q, (-7)%Z)] (1 # 100000) (1 # 100000) [] 0 false) = 1005%Z
+  /\ check_c11 (mk11 0 false false false None None 3 false 50 1 1 0 0 [st_inst] [] [[]]
+                  [([2; 1]%nat, [8 # 9; 1]%Q, (8 # 9)%Q, (-7)%Z)] (1 # 100000) (1 # 100000) [] 0 false) = 1003%Z.
+Proof. vm_compute. repeat split. Qed.
+
+(* store_all_logp: the entropy of the pass is that of the step distribution (8/9, 1/9) = 0.348832...; its negative and its
+   half (a mean over the three actions instead of a sum would give a third) are rejected.  select_best=True without replicas
+   (multistart=False, num_starts=0) returns the plain rollout; a budget of max_steps = 0 (fuel 1) truncates it;
+   multistart and multisample together: the constructor raises *)
+Example check_c11_selftest_2 :
+  check_c11 (mk11 0 true false false None None 3 false 50 1 1 0 0 [st_inst] [] [[]]
+                  [([1; 2]%nat, [8 # 9; 1]%Q, (8 # 9)%Q, (-7)%Z)] (1 # 100000) (1 # 100000) [348832 # 1000000]%Q (1 # 100000) false) = 0%Z
+  /\ check_c11 (mk11 0 true false false None None 3 false 50 1 1 0 0 [st_inst] [] [[]]
+                  [([1; 2]%nat, [8 # 9; 1]%Q, (8 # 9)%Q, (-7)%Z)] (1 # 100000) (1 # 100000) [-348832 # 1000000]%Q (1 # 100000) false) = 1007%Z
+  /\ check_c11 (mk11 0 true false false None None 3 false 50 1 1 0 0 [st_inst] [] [[]]
+                  [([1; 2]%nat, [8 # 9; 1]%Q, (8 # 9)%Q, (-7)%Z)] (1 # 100000) (1 # 100000) [116277 # 1000000]%Q (1 # 100000) false) = 1007%Z
+  /\ check_c11 (mk11 0 false false false (Some 0%Z) None 3 true 50 1 1 0 0 [st_inst] [] [[]]
+                  [([1; 2]%nat, [8 # 9; 1]%Q, (8 # 9)%Q, (-7)%Z)] (1 # 100000) (1 # 100000) [] 0 false) = 0%Z
+  /\ check_c11 (mk11 0 false false false None None 3 false 1 1 1 0 0 [st_inst] [] [[]]
+                  [([1; 2]%nat, [8 # 9; 1]%Q, (8 # 9)%Q, (-7)%Z)] (1 # 100000) (1 # 100000) [] 0 false) = 1003%Z
+  /\ check_c11 (mk11 0 false false false None None 3 false 1 1 1 0 0 [st_inst] [] [[]]
+                  [([1]%nat, [8 # 9]%Q, (8 # 9)%Q, 0%Z)] (1 # 100000) (1 # 100000) [] 0 false) = 0%Z
+  /\ check_c11 (mk11 0 false true true None None 3 false 50 1 1 0 0 [st_inst] [] [[]] [] (1 # 100000) (1 # 100000) [] 0 true) = 0%Z
+  /\ check_c11 (mk11 0 false true true None None 3 false 50 1 1 0 0 [st_inst] [] [[]] [] (1 # 100000) (1 # 100000) [] 0 false) = 7%Z.
 Proof. vm_compute. repeat split. Qed.
